@@ -74,7 +74,7 @@ DebugHas(t, c) ==
       [] t.op = "overlay" -> \E k \in 1..Len(t.srcs) : DebugHas(t.srcs[k], c)
       [] t.op = "zoom" -> (t.min < 0 \/ c[1] >= t.min) /\ (t.max < 0 \/ c[1] <= t.max) /\ DebugHas(t.src, c)
       [] t.op = "bbox" -> DContains(GeoSel(t.geo, c[1]), c[2], c[3]) /\ DebugHas(t.src, c)
-DebugFails(r) ==
+DebugFails1(r) ==
     LET t == r.tree IN
     Fails("build", r.built = 1 \/ (Degenerate(t) /\ r.panic = 0)) \cup
     (IF r.built = 0 THEN {} ELSE
@@ -91,8 +91,19 @@ DebugFails(r) ==
      Fails("stream", \A i \in 1..Len(r.streams) :
               r.streams[i].status = "ok" /\ r.streams[i].res = TilesInBox(r.expect, r.streams[i].box)))
 
+\* the tree with one uniform boundary choice in every geographic filter
+RECURSIVE TreeWithChoice(_, _)
+TreeWithChoice(t, c) ==
+    CASE t.op = "bbox" -> [op |-> "bbox", geo |-> WithChoice(t.geo, c), src |-> TreeWithChoice(t.src, c)]
+      [] t.op = "zoom" -> [op |-> "zoom", min |-> t.min, max |-> t.max, src |-> TreeWithChoice(t.src, c)]
+      [] t.op = "overlay" -> [op |-> "overlay", srcs |-> [k \in 1..Len(t.srcs) |-> TreeWithChoice(t.srcs[k], c)]]
+      [] OTHER -> t
+RECURSIVE HasBBox(_)
+HasBBox(t) == CASE t.op = "bbox" -> TRUE [] t.op = "zoom" -> HasBBox(t.src)
+                [] t.op = "overlay" -> \E k \in 1..Len(t.srcs) : HasBBox(t.srcs[k]) [] OTHER -> FALSE
+
 (* judging one observed operation *)
-PipeFails(r) ==
+PipeFails1(r) ==
     LET S == r.sources  t == r.tree  want == Sem(t, S) IN
     IF r.invalid = 1
     THEN \* an invalid argument must be reported when the pipeline is built: an error, not a panic, not a pipeline
@@ -119,4 +130,13 @@ PipeFails(r) ==
                    s.status = "ok" /\ SameBag(s.res, {x \in want : InBox(x, s.box)})) \cup
           Fails("stream", \A i \in 1..Len(r.streams) :
                    r.streams[i].status = "ok" /\ r.streams[i].res = TilesInBox(r.expect, r.streams[i].box)))
+\* judged with the guard's choice at exact tile boundaries; failing that, with any one uniform admissible choice
+PipeFails(r) ==
+    LET f0 == PipeFails1(r) IN
+    IF f0 = {} \/ r.invalid = 1 \/ ~HasBBox(r.tree) THEN f0
+    ELSE IF \E c \in GeoChoices \ {NoCh} : PipeFails1([r EXCEPT !.tree = TreeWithChoice(r.tree, c)]) = {} THEN {} ELSE f0
+DebugFails(r) ==
+    LET f0 == DebugFails1(r) IN
+    IF f0 = {} \/ ~HasBBox(r.tree) THEN f0
+    ELSE IF \E c \in GeoChoices \ {NoCh} : DebugFails1([r EXCEPT !.tree = TreeWithChoice(r.tree, c)]) = {} THEN {} ELSE f0
 =============================================================================
